@@ -22,6 +22,7 @@ use std::{result, thread};
 use std::sync::Arc;
 
 use glob::{glob, Paths};
+use libfs::is_same_file;
 use libxcp::config::{Config, Reflink};
 use libxcp::drivers::load_driver;
 use libxcp::errors::{Result, XcpError};
@@ -121,7 +122,9 @@ fn main() -> Result<()> {
         if source.is_dir() && !opts.recursive {
             return Err(XcpError::InvalidSource("Source is directory and --recursive not specified.").into());
         }
-        if source == &dest {
+        // Also catch the destination being the source itself under
+        // another spelling (./dir, dir/../dir, a symbolic link).
+        if source == &dest || (dest.exists() && is_same_file(source, &dest)?) {
             return Err(XcpError::InvalidSource("Cannot copy a directory into itself").into());
         }
 
